@@ -31,7 +31,8 @@
 (*                  half the sum of the two end cells, whatever the origin  *)
 (*   InvStencil     uniform mesh, upwind flux a = +1, ANY data: the         *)
 (*                  residual is the circulant kappa stencil of FVM1D.tla    *)
-(*                  (KappaStencil), for every k                             *)
+(*                  (KappaStencil), for every k; InvStencilMirror: for      *)
+(*                  a = -1 (right states) it is the mirror image            *)
 (*   InvMoments     that stencil annihilates constants, differentiates      *)
 (*                  linear data exactly and has no second-moment error for  *)
 (*                  EVERY k (second order); its third moment vanishes       *)
@@ -118,6 +119,16 @@ InvMoments == /\ Sm2 + Sm1 + S0 + Sp1 = 0
               /\ -2 * Sm2 - Sm1 + Sp1 = -4 * kd
               /\ 4 * Sm2 + Sm1 + Sp1 = 0
               /\ (kd > 0 => ((-8 * Sm2 - Sm1 + Sp1 = 0) <=> (3 * kn = kd)))
+
+(* the same operator for a = -1 (right states upwind; u0..u3 = q_{c-1} .. q_{c+2}): the MIRROR IMAGE of the stencil, coefficient
+   s(m) on q_{c-m} -- C13 at the level of the stencil, and the formula of the right state in xnum.extrapolk / extrapol2dk
+   (weights (1-k) on the far gradient, (1+k) on the near one).  InvBadMirrorK: the right state built from the slope of the
+   LEFT state (seed C11d: one k-weighted slope for both faces) is the mirror image only for k = 0 *)
+RFaceHi == 4 * kd * u2 - (kd - kn) * (u3 - u2) - (kd + kn) * (u2 - u1)
+RFaceLo == 4 * kd * u1 - (kd - kn) * (u2 - u1) - (kd + kn) * (u1 - u0)
+InvStencilMirror == (RFaceHi - RFaceLo = Sm2 * u3 + Sm1 * u2 + S0 * u1 + Sp1 * u0)
+InvBadMirrorK == ((4 * kd * u2 - (kd - kn) * (u2 - u1) - (kd + kn) * (u3 - u2))
+                  - (4 * kd * u1 - (kd - kn) * (u1 - u0) - (kd + kn) * (u2 - u1)) = Sm2 * u3 + Sm1 * u2 + S0 * u1 + Sp1 * u0)
 
 InvBadStencil == (FaceLo - FaceHi = -(kd + kn) * u0 + (4 * kd + 2 * (kd + kn) - (kd - kn)) * u1
                                     + (-(4 * kd + (kd + kn)) + 2 * (kd - kn)) * u2 - (kd - kn) * u3)
